@@ -114,6 +114,12 @@ def r3_announcement_wiring(cx):
             if o[0] == "rvalue" and o[2]["rv"].get("variant") == "Some":
                 ok = True
     cx.check("add_new_peer-announces", ok, site_of(anp), "after peers.insert every path reaches update_peer_info(addr, Some(info))")
+    # the sweep itself is unconditional: every return of housekeep lies behind both retain() calls ("disappear at once",
+    # not "at the next sweep that happens to run")
+    for fld, calls_ in (("claims", ("vec::Vec::retain", "Vec::retain")), ("cache", ("HashMap::retain", "collections::HashMap::retain"))):
+        ret = calls_on_field(prog, calls_, "ClaimTable", fld, bodies=[hk])
+        cx.check("sweep-unconditional:" + fld, len(ret) == 1 and all(hk.cfg.dominates(bi, r) for (_b, bi, _t) in ret for r in hk.cfg.exits), site_of(hk),
+                 "ClaimTable::housekeep removes expired %s on every call (no rate limit / early return before the retain)" % fld)
     # set_claims / remove_claims end with the expiry sweep
     for fn in (sc, A.method(prog, "ClaimTable", "remove_claims")):
         hcalls = [ci for ci, ct in fn.calls() if any(d == hk.did for _k, d in prog.cg.resolve(fn, ct))]
